@@ -117,6 +117,12 @@ structure TailFacts (s s' : Store) (roots m : List Nat) (sR : Store) (c0 cA : Na
   pre : ∀ i, i < s.retention → s'.cells[i]? = sR.cells[i]?
   shift : Shift sR.cells s'.cells cA s.retention
 
+/-- the index phase: one `create_index_stack` per symbol name, head and extra root -/
+def IndexPhase (s : Store) (roots : List Nat) (s5 : Store) : Prop :=
+  ∃ s1 s2 s3 s4, Store.indexSymbols s 0 s.symtab.size = .ok s1 ∧ Store.indexOpt s1 s.currentRegister = .ok s2 ∧
+    Store.indexOpt s2 s.currentValue = .ok s3 ∧ Store.indexOpt s3 s.currentFrame = .ok s4 ∧
+    Store.indexRoots s4 roots = .ok s5
+
 /-- **`optimize_data_block_and_retain` after its guard**, phase by phase: the index phase appends (`s5`), the
 reversed walk satisfies its invariant with the slide offset (`s6`), the re-pointing loop runs on `s6` (`sR`), and the
 rest is `TailFacts` -/
@@ -127,7 +133,8 @@ theorem optimizeBody_core {s s' : Store} {roots m : List Nat}
       s.cells.size ≤ s5.cells.size ∧ s6.retention = s.retention ∧ s6.start = s.start ∧
       s6.currentValue = s.currentValue ∧
       Store.repointLoop (s6.start + s.cells.size) (s6.start + s5.cells.size) s.cells.size s6 s.currentValue = .ok sR ∧
-      TailFacts s s' roots m sR s.cells.size s5.cells.size := by
+      TailFacts s s' roots m sR s.cells.size s5.cells.size ∧ IndexPhase s roots s5 ∧
+      (s5.cells.size = s.cells.size → s6.cells.size = s5.cells.size) := by
   unfold Store.optimizeBody at h
   simp only [bind_eq_ok] at h
   obtain ⟨s1, h1, s2, h2, s3, h3, s4, h4, s5, h5, h6⟩ := h
@@ -146,7 +153,7 @@ theorem optimizeBody_core {s s' : Store} {roots m : List Nat}
     -- the walk
     have hinv0 : CInv (s5.start + s5.cursor - (s.start + s.retention)) s.cells s5 s.cells.size s5.cells.size
         (s5.cells.size - s.cells.size) s5 := by
-      refine ⟨?_, rfl, rfl, Nat.le_refl _, by omega, fun _ _ _ => rfl, ?_⟩
+      refine ⟨?_, rfl, rfl, Nat.le_refl _, by omega, fun _ _ _ => rfl, ?_, fun _ j h1 h2 => by omega⟩
       · intro i c hc
         have hi : i < s.cells.size := by
           rcases Nat.lt_or_ge i s.cells.size with h | h
@@ -229,7 +236,16 @@ theorem optimizeBody_core {s s' : Store} {roots m : List Nat}
       have e2 : s5.start + s5.cursor = s6'.start + s5.cells.size := by simp [Store.cursor, hstart6', hstart5]
       rw [e1, e2, Nat.add_sub_cancel_left] at hR
       exact hR
-    refine ⟨s5, s6', s6, hinv, hc0A, hret6', hstart6', hheads6'.2.1, hRnorm, ?_⟩
+    have hnoidx : s5.cells.size = s.cells.size → s6'.cells.size = s5.cells.size := by
+      intro heq
+      split at h7
+      · rename_i hne
+        exfalso
+        apply hne
+        simp only [Store.cursor, hstart5, heq]
+      · simp only [pure, Outcome.ok.injEq] at h7
+        rw [← h7]
+    refine ⟨s5, s6', s6, hinv, hc0A, hret6', hstart6', hheads6'.2.1, hRnorm, ?_, ⟨s1, s2, s3, s4, h1, h2, h3, h4, h5⟩, hnoidx⟩
     -- heads, roots and symbols are looked up in stores with the data of `s6`
     have hsd7 : SameData s6 s7 := hsd7
     have hregL := remapOpt_spec hreg
@@ -278,7 +294,7 @@ theorem optimizeBody_core {s s' : Store} {roots m : List Nat}
 theorem optimizeBody_links {s s' : Store} {roots m : List Nat}
     (h : Store.optimizeBody s roots = .ok (s', m)) (hr : s.retention ≤ s.cells.size) (hy : OptHyp s) :
     ∃ L, LinksPreserved s s' roots m L := by
-  obtain ⟨s5, s6, sR, hinv, hc0A, hret6, hstart6, _, hR, tf⟩ := optimizeBody_core h hr hy.listsWF
+  obtain ⟨s5, s6, sR, hinv, hc0A, hret6, hstart6, _, hR, tf, _, _⟩ := optimizeBody_core h hr hy.listsWF
   -- the re-pointing loop finds nothing to re-point
   have hvc' : ValueLinksClosed s6 := by
     intro i p v hi hcell
